@@ -36,8 +36,8 @@ def styles_phase(ctx):
         fatal = fatal or f1
         ctx["nops"] += st.get("ops", 0)
         ctx["nlines"] += nl
+        ctx["nscen"] += vlib.LAST_COMPARED.get("styles", 0)     # bursts actually run and judged
         ctx["hashes"].add("bursts:" + st.get("content", ""))
-    ctx["nscen"] += rounds
     log("style listing under concurrency: %d bursts of 6 registrations with two goroutines listing the styles" % rounds)
     viol = []
     if fatal or lib:
@@ -396,6 +396,14 @@ def conc_phase(ctx):
     out = p.stdout or ""
     reports, lib = _library_race(out)
     if p.returncode != 0:
+        if lib:
+            log("MISMATCH the race detector reported %d data race(s) with library frames before the driver died; first:\n%s" % (len(lib), lib[0][:1500]))
+            shutil.rmtree(d, ignore_errors=True)
+            return [_phase_artifact(ctx, "%s-race.json" % ctx["prop"], "conc", "WARNING: DATA RACE" + "\nWARNING: DATA RACE".join(lib))]
+        if _library_panic(out):
+            log("MISMATCH a library call panicked on a goroutine of the concurrent run:\n%s" % out[out.find("\npanic: "):][:1500])
+            shutil.rmtree(d, ignore_errors=True)
+            return [_phase_artifact(ctx, "%s-panic.json" % ctx["prop"], "conc", out[out.find("\npanic: "):])]
         if _library_fatal(out):
             log("MISMATCH the Go runtime aborted the concurrent run: unsynchronised map access inside the library")
             shutil.rmtree(d, ignore_errors=True)
@@ -413,6 +421,11 @@ def conc_phase(ctx):
         log("MISMATCH the race detector reported %d data race(s) with library frames; first:\n%s" % (len(lib), lib[0][:1500]))
         viol.append(_phase_artifact(ctx, "%s-race.json" % ctx["prop"], "conc", "WARNING: DATA RACE" + "\nWARNING: DATA RACE".join(lib)))
     recs, nl = vlib.validate(tp, d, module="TabularTrace")
+    if vlib.LAST_COMPARED.get("#reset") != st.get("scenarios", 0) + 1:
+        raise Infra("the concurrent driver ran %s scenarios (+1 comparison record), the validator saw %r"
+                    % (st.get("scenarios"), vlib.LAST_COMPARED.get("#reset")))
+    if not vlib.LAST_COMPARED.get("res.unequal"):
+        raise Infra("the concurrent run was not compared with the solo runs")
     ctx["nscen"] += st.get("scenarios", 0)
     ctx["nops"] += st.get("ops", 0)
     ctx["nlines"] += nl
